@@ -3,7 +3,7 @@
    ALL placements (into each top-level clone, a new clone above every subset of top-level clones, the outlier set):
    this is faithfulness (sampled probability = reported density), normalisation (take f = 1) and support in one
    statement, for every number of top-level clones R and every test function f. *)
-From PV Require Import Model.Proposals Proofs.GibbsProofs Proofs.ProposalsProofs.
+From PV Require Import Model.Proposals Proofs.GibbsProofs Proofs.ProposalsProofs Proofs.ProposalsPoint.
 
 Theorem C08_bootstrap_is_density : forall (op : Qc) (first : bool) (R : nat) (f : place -> Qc),
   (first = true -> R = 0%nat) ->
@@ -40,6 +40,29 @@ Theorem C08_semi_adapted_mass_one : forall (gam : place -> Qc) (R : nat) (on : b
   mass (semi_sample gam R on) = 1.
 Proof. exact semi_sample_mass. Qed.
 Print Assumptions C08_semi_adapted_mass_one.
+
+(* point-mass form: the list of all placements has no duplicates, and every placement is drawn with exactly its
+   reported probability *)
+Theorem C08_all_places_NoDup : forall R on, NoDup (all_places R on).
+Proof. exact all_places_NoDup. Qed.
+Print Assumptions C08_all_places_NoDup.
+
+Theorem C08_bootstrap_each_placement_exact : forall op first R p,
+  (first = true -> R = 0%nat) -> In p (all_places R true) -> E (boot_sample op first R) (pind p) = boot_dens op first R p.
+Proof. exact boot_point_mass. Qed.
+Print Assumptions C08_bootstrap_each_placement_exact.
+
+Theorem C08_fully_adapted_each_placement_exact : forall gam R on p,
+  total gam (all_places R on) <> 0 -> In p (all_places R on) -> E (full_sample gam R on) (pind p) = full_dens gam R on p.
+Proof. exact full_point_mass. Qed.
+Print Assumptions C08_fully_adapted_each_placement_exact.
+
+Theorem C08_semi_adapted_each_placement_exact : forall gam R (on : bool) p,
+  (R = 0%nat -> total gam ((if on then [Outlier] else []) ++ [NewOver []]) <> 0) ->
+  (R <> 0%nat -> total gam (semi_exist R on) <> 0) ->
+  In p (all_places R on) -> E (semi_sample gam R on) (pind p) = semi_dens gam R on p.
+Proof. exact semi_point_mass. Qed.
+Print Assumptions C08_semi_adapted_each_placement_exact.
 
 (* the number of k-subsets is the binomial coefficient the densities divide by *)
 Theorem C08_subsets_count : forall (A : Type) (l : list A) (k : nat), length (subsets_k k l) = C (length l) k.
